@@ -113,5 +113,5 @@ CHECKS['C18'] = {
     'engine': 'cfgx+ovl (sanitizer builds)',
     'technique': 'the exhaustive enumerations of C03-C10, C13-C17, C19 re-executed on AddressSanitizer+UBSan builds with exact-size guard-page / poisoned arenas; every report attributed to the enumerated case',
     'text': 'Memory safety is decided on the same finite spaces as the functional properties: every transform configuration, every call history with destruction of the object, every sponge length and Merkle shape (smallest shapes included), the Poseidon/cubic/inverse/conversion enumerations, the matrix kernels with exact heap coefficient blocks and the whole overload catalogue are run under AddressSanitizer (bounds, alloc/dealloc and new/delete mismatch) and non-recoverable UBSan; arrays are exact-size and fenced by PROT_NONE pages so that vector code and inline asm that the sanitizer does not instrument still fault on an out-of-extent access.',
-    'note': 'Uninitialised reads are not detected (no MemorySanitizer-instrumented libstdc++/gmp offline). Leak checking is off. Shapes above the enumeration bounds are not run.',
+    'note': 'Uninitialised reads are not detected (no MemorySanitizer-instrumented libstdc++/gmp offline). Leak checking is off. Shapes above the enumeration bounds are not run. A stack step measures the stack high-water mark of 74 transform / Merkle / sponge / batchInverse configurations at count c and 4c on a harness-owned stack and reports growth only after the extrapolated call really overruns an 8 MiB stack in a child process.',
 }
